@@ -6,7 +6,7 @@
    No proofs here. *)
 From Coq Require Import List ZArith Bool Arith.
 From Coq Require Import Strings.Byte.
-From WH Require Import lib.Bytes gen.Extracted model.Vaa.
+From WH Require Import lib.Bytes gen.Extracted gen.ExtractedP2P model.Vaa.
 Import ListNotations.
 Open Scope Z_scope.
 
